@@ -751,10 +751,19 @@ private:
             for_each_tuple<K>(f,
                               [&](const std::array<ts, K>& idx)
                               {
-                                  std::apply([&](auto... i) { r(i...) = val<T>(lin, m_salt); }, idx);
+                                  at(idx);
+                                  std::apply(
+                                      [&](auto... i)
+                                      {
+                                          REQ(r.offset(i...) == lin, "offset/not-row-major",
+                                              "offset(tuple) in the reshaped tensor before writing: got, expected", r.offset(i...), lin);
+                                          r(i...) = val<T>(lin, m_salt);
+                                      },
+                                      idx);
                                   mirror[static_cast<size_t>(lin)] = val<T>(lin, m_salt);
                                   ++lin;
                               });
+            at_none();
             verify(t, base, mirror, "after writing through reshape(...): got, expected");
         }
     }
